@@ -419,7 +419,11 @@ impl DeconstructedPat {
             PatKind::Binding(_ident) => Constructor::Wildcard(WildcardReason::VarPat),
             PatKind::Bool(b) => Constructor::Bool(*b),
             PatKind::Int(i) => Constructor::Int(*i),
-            PatKind::Float(f) => Constructor::Float(f.clone()),
+            PatKind::Float(f) => {
+                // literals are compared by value, not by spelling (1.0 and 1.00 are the same pattern)
+                let canonical = f.parse::<f64>().map(|v| format!("{v:?}")).unwrap_or(f.clone());
+                Constructor::Float(canonical)
+            }
             PatKind::Str(s) => Constructor::String(s.clone()),
             PatKind::Void => Constructor::Product,
             PatKind::Tuple(elems) => {
